@@ -1,11 +1,23 @@
 /-
-C19 (encoding part) — TOY instruction words: `encode`/`decode` round trips.
-Property theorems only. (The assembler part of C19 lives elsewhere.)
+C19 — TOY instruction words (`encode`/`decode` round trips) and the TOY assembler
+(`ToyAsm.load`, the model of `ToyParser.parse` + `ToySimulation.load_program`):
+instruction placement, data placement, label resolution, segment order, numerals, examples.
+Property theorems only; the lemmas are in `ArchSim/Lemmas/ToyAsm*.lean`.
+
+The assembler theorems are stated for *tokenised* programs (`List Entry`, one entry
+`(line number, line, tokens)` per non-empty source line): `loadToks t toks` is `load` after
+`tokenize (sanitize text)` succeeded (`load_tokenised`).  `segData / segText / codeLabels /
+allLabels / instrsOf` are the results of the passes (`segment`, `processLabels`, `writeData`,
+`buildInstrs`); `instrCount l` counts the instruction lines of `l`, `dataSize l` the data words
+declared in `l`.
 -/
 import ArchSim.Model.Toy
+import ArchSim.Lemmas.ToyAsmMain
+import ArchSim.Lemmas.ToyAsmFront
+import ArchSim.Lemmas.ToyAsmExamples
 
 namespace ArchSim.Props.C19
-open ArchSim.Toy
+open ArchSim ArchSim.Toy ArchSim.ToyAsm ArchSim.PP
 
 /-- Every TOY instruction (opcode 0..12, 12-bit address section) encodes to a 16-bit word whose top
     four bits are the opcode and whose low twelve bits are the address, and that word decodes back
@@ -52,5 +64,389 @@ theorem decode_mod (w : Nat) : decode (w % 65536) = decode w := by
     address section `0x00A`. -/
 example : encode ⟨3, 0x123⟩ = 0x3123 ∧ decode 0x3123 = ⟨3, 0x123⟩ ∧ decode 0xF00A = ⟨12, 0x00A⟩ := by
   decide
+
+
+/-! ## The assembler -/
+
+/-- `load` is: tokenise the sanitised text; on a syntax error return the fresh state and the error;
+    otherwise run the remaining passes (`loadToks`) on the token list. The token list of a text has
+    pairwise distinct (strictly increasing) line numbers. -/
+theorem load_tokenised (t : TSim) (text : String) :
+    (load t text =
+      match tokenize (sanitize text) with
+      | .error e => ({ t with s := {} }, some e)
+      | .ok toks => loadToks t toks) ∧
+    ∀ toks, tokenize (sanitize text) = .ok toks → (toks.map (·.1)).Nodup :=
+  ⟨load_eq_loadToks t text, fun toks h => tokenize_sanitize_nodup text toks h⟩
+
+/-- **Instruction placement.** If loading succeeds then every pass succeeded, and with `is` the
+    instruction list built from the text segment (one instruction per instruction line):
+    the memory holds `encode is[i]` at address `i` for every `i < is.length`; code and data do not
+    overlap (`is.length + number of data words ≤ 4096`, all data addresses are
+    `≥ 4096 − dataSize ≥ is.length`) and every cell in between is zero; `maxPc = is.length − 1`;
+    the pre-loaded instruction is `is[0]` (none for an empty program); `pc = 1`, `accu = 0` and the
+    counters are 0 as in a fresh state; `nextCycle` and `started` are inherited from `t`. -/
+theorem instr_placement (t : TSim) (toks : List Entry) (h : (loadToks t toks).2 = none) :
+    segment toks = .ok (segData toks, segText toks) ∧
+    processLabels toks [] 0 = .ok (codeLabels toks) ∧
+    buildInstrs (segText toks) (allLabels toks) = .ok (instrsOf toks) ∧
+    (instrsOf toks).length = instrCount (segText toks) ∧
+    (∀ (i : Nat) (hi : i < (instrsOf toks).length),
+      (loadToks t toks).1.s.mem.cells (i : Int) = encode (instrsOf toks)[i] % 65536) ∧
+    (instrsOf toks).length + dataSize (segData toks) ≤ 4096 ∧
+    (∀ x : Int, ((instrsOf toks).length : Int) ≤ x → x < 4096 - dataSize (segData toks) →
+      (loadToks t toks).1.s.mem.cells x = 0) ∧
+    (loadToks t toks).1.s.maxPc = some (((instrsOf toks).length : Int) - 1) ∧
+    (loadToks t toks).1.s.loaded = (instrsOf toks)[0]? ∧
+    (loadToks t toks).1.s.pc = 1 ∧ (loadToks t toks).1.s.accu = 0 ∧
+    (loadToks t toks).1.s.cycles = 0 ∧ (loadToks t toks).1.s.instrs = 0 ∧
+    (loadToks t toks).1.s.branches = 0 ∧
+    (loadToks t toks).1.nextCycle = t.nextCycle ∧ (loadToks t toks).1.started = t.started := by
+  have hok := loadToks_ok t toks h
+  obtain ⟨f1, f2, f3, f4, f5, f6, f7, f8, f9⟩ := hok.fields
+  exact ⟨hok.seg, hok.labels, hok.build, hok.buildSpec.length, hok.instr_cell, hok.size,
+    hok.gap_cell, f1, f2, f3, f4, f5, f6, f7, f8, f9⟩
+
+/-- The instruction words are proper: every instruction object built has an opcode in 0..12 and a
+    12-bit address section, so the cell at address `i` is exactly `encode is[i]` (no truncation) and
+    decodes back to `is[i]` — the link to the encoding half of this property. -/
+theorem instr_words_decode (t : TSim) (toks : List Entry) (h : (loadToks t toks).2 = none) :
+    (∀ i ∈ instrsOf toks, i.opcode ≤ 12 ∧ i.addr < 4096) ∧
+    ∀ (i : Nat) (hi : i < (instrsOf toks).length),
+      (loadToks t toks).1.s.mem.cells (i : Int) = encode (instrsOf toks)[i] ∧
+      decode ((loadToks t toks).1.s.mem.cells (i : Int)) = (instrsOf toks)[i] :=
+  ⟨buildInstrs_wf _ _ _ (loadToks_ok t toks h).build, (loadToks_ok t toks h).instr_word⟩
+
+/-- The state a successful load produces is exactly the `Toy.loadImage` of the instruction list and
+    the data words (so every theorem about `loadImage` — boundary invariant, refinement of the
+    reference machine, C06 — applies to assembled programs). -/
+theorem load_is_loadImage (t : TSim) (toks : List Entry) (h : (loadToks t toks).2 = none) :
+    (loadToks t toks).1 = Toy.loadImage t (instrsOf toks) (dataWords 4095 (segData toks)) :=
+  (loadToks_ok t toks h).image
+
+/-- **Data placement, the recurrence.** One step of `writeData` on a variable declaration whose
+    name is new and whose block fits: the block of `vals.length` words is put directly below the
+    words placed so far (`last` is the highest address not yet used, initially 4095), the values
+    are written ascending from the block's first address `last − len + 1`, and the name is bound to
+    that address. -/
+theorem data_placement_step (k : Nat) (line name : String) (vals : List String) (rest : List Entry)
+    (o : DataOut) (hfit : 0 ≤ o.last - vals.length + 1) (hnew : lookup o.labels name = none) :
+    writeData ((k, line, .varDecl name vals) :: rest) o =
+      writeData rest { o with mem := writeVals o.mem (o.last - vals.length + 1) vals,
+                              labels := o.labels ++ [(name, o.last - vals.length + 1)],
+                              last := o.last - vals.length } :=
+  writeData_cons_var k line name vals rest o hfit hnew
+
+/-- **Data placement, closed form.** If the data pass over `data` succeeds (starting from any
+    record `o` over the TOY memory with `last ≤ 4095`) then every line of `data` is a variable
+    declaration, `last` went down by the total number of words, and variable number `j`
+    (declaration order) with values `vals` got the address
+    `a = o.last + 1 − Σ_{i ≤ j} len_i`: its name was new, the final table maps it to `a`, and
+    element `e` of the array is at `a + e` with value `valueToInt vals[e] mod 2^16`.  Cells outside
+    the data block are untouched and old bindings are kept. -/
+theorem data_placement (data : List Entry) (o : DataOut) (hc : o.mem.cfg = Mem.toyCfg)
+    (hl : o.last ≤ 4095) (h : (writeData data o).err = none) :
+    (∀ e ∈ data, isVarDecl e.2.2 = true) ∧
+    (writeData data o).last = o.last - dataSize data ∧
+    (∀ (j k : Nat) (line name : String) (vals : List String),
+      data[j]? = some (k, line, .varDecl name vals) →
+      lookup o.labels name = none ∧
+      lookup (writeData data o).labels name = some (o.last + 1 - dataSize (data.take (j + 1))) ∧
+      ∀ (e : Nat) (he : e < vals.length),
+        (writeData data o).mem.cells (o.last + 1 - dataSize (data.take (j + 1)) + e) =
+          valueToInt vals[e] % 65536) ∧
+    (∀ x : Int, ¬ ((writeData data o).last < x ∧ x ≤ o.last) →
+      (writeData data o).mem.cells x = o.mem.cells x) ∧
+    (∀ n x, lookup o.labels n = some x → lookup (writeData data o).labels n = some x) := by
+  have sp := writeData_spec data o hc hl h
+  exact ⟨sp.allVar, sp.last, sp.var, sp.frame, sp.keep⟩
+
+/-- **Data placement in the loaded program.** After a successful load, variable number `j` of the
+    data segment has the address `a = 4096 − Σ_{i ≤ j} len_i` — the first variable ends at 4095, each
+    further one lies directly below its predecessor —, `a` is above the code, the final label table
+    maps the variable's name to `a`, and the memory of the loaded state holds
+    `valueToInt vals[e] mod 2^16` at `a + e` (array elements ascending). -/
+theorem data_placement_load (t : TSim) (toks : List Entry) (h : (loadToks t toks).2 = none)
+    (j k : Nat) (line name : String) (vals : List String)
+    (hj : (segData toks)[j]? = some (k, line, .varDecl name vals)) :
+    ((instrsOf toks).length : Int) ≤ 4096 - dataSize ((segData toks).take (j + 1)) ∧
+    lookup (allLabels toks) name = some (4096 - dataSize ((segData toks).take (j + 1)) : Int) ∧
+    ∀ (e : Nat) (he : e < vals.length),
+      (loadToks t toks).1.s.mem.cells (4096 - dataSize ((segData toks).take (j + 1)) + e) =
+        valueToInt vals[e] % 65536 :=
+  (loadToks_ok t toks h).var j k line name vals hj
+
+/-- **Labels.** After a successful load: (1) a stand-alone label or in-line label declared on
+    entry `j` of the WHOLE token list is bound, in the final table, to the number of instruction
+    lines strictly before entry `j`; (2) the data segment consists of variable declarations only
+    (no instructions, no labels); (3) instruction line `j` of the text segment is instruction
+    number `instrCount (text.take j)` of the program, its opcode is that of the mnemonic, and for an
+    address-type mnemonic (opcode ≤ 7) a numeric operand `v` gives the address section
+    `valueToInt v mod 4096` while a name `r` gives `x mod 4096` where `x` is what the final label
+    table (labels and variables) binds `r` to; the other instructions get address section 0. -/
+theorem labels_resolve (t : TSim) (toks : List Entry) (h : (loadToks t toks).2 = none) :
+    (∀ (j k : Nat) (line : String) (s : TStmt) (n : String),
+      toks[j]? = some (k, line, s) → declaredLabel s = some n →
+      lookup (allLabels toks) n = some ((instrCount (toks.take j) : Nat) : Int)) ∧
+    (∀ e ∈ segData toks, isVarDecl e.2.2 = true) ∧
+    (∀ (j k : Nat) (line : String) (lbl : Option String) (mn : String) (addr ref : Option String),
+      (segText toks)[j]? = some (k, line, .instr lbl mn addr ref) →
+      ∃ a : Nat,
+        (instrsOf toks)[instrCount ((segText toks).take j)]? = some { opcode := opcodeOf mn, addr := a } ∧
+        (∀ v, opcodeOf mn ≤ 7 → addr = some v → a = valueToInt v % 4096) ∧
+        (∀ r, opcodeOf mn ≤ 7 → addr = none → ref = some r →
+          ∃ x, lookup (allLabels toks) r = some x ∧ a = (x % 4096).toNat) ∧
+        (7 < opcodeOf mn → a = 0)) := by
+  have hok := loadToks_ok t toks h
+  refine ⟨hok.label, hok.dataSpec.allVar, ?_⟩
+  intro j k line lbl mn addr ref hj
+  obtain ⟨x, hx, hi⟩ := hok.buildSpec.instr j k line lbl mn addr ref hj
+  refine ⟨(x % 4096).toNat, hi, ?_, ?_, ?_⟩
+  · intro v hop hv
+    subst hv
+    simp only [operand, hop, if_true, Option.some.injEq] at hx
+    subst hx
+    omega
+  · intro r hop ha hr
+    subst ha hr
+    simp only [operand, hop, if_true] at hx
+    exact ⟨x, hx, rfl⟩
+  · intro hop
+    have : ¬ opcodeOf mn ≤ 7 := by omega
+    simp only [operand, this, if_false, Option.some.injEq] at hx
+    subst hx
+    rfl
+
+/-- **Labels are instruction addresses.** For a token list with distinct line numbers (as every
+    tokenised text has) and a successful load: a label declared on line `p` of the text segment is
+    bound to the number of instruction lines of the text segment before it — which is the index in
+    `instrsOf`, i.e. the memory address, of the first instruction at or after the label — no matter
+    where the data segment stands. -/
+theorem labels_are_instruction_addresses (t : TSim) (toks : List Entry)
+    (hnd : (toks.map (·.1)).Nodup) (h : (loadToks t toks).2 = none)
+    (p k : Nat) (line : String) (s : TStmt) (n : String)
+    (hp : (segText toks)[p]? = some (k, line, s)) (hn : declaredLabel s = some n) :
+    lookup (allLabels toks) n = some ((instrCount ((segText toks).take p) : Nat) : Int) :=
+  (loadToks_ok t toks h).text_label hnd p k line s n hp hn
+
+/-- **Segment order.** For a `.data` line `dD`, a `.text` line `dT`, and lists `data`, `text` without
+    segment directives (the directives' line numbers not occurring earlier): `.data … .text …`,
+    `.text … .data …` and `… .data …` (implicit text segment, non-empty) are all split into the
+    same `(data, text)`. -/
+theorem segment_order (dD dT : Entry) (hD : isDir "data" dD = true) (hT : isDir "text" dT = true)
+    (data text : List Entry) (hd : ∀ e ∈ data, isSegDir e = false) (ht : ∀ e ∈ text, isSegDir e = false)
+    (hlineT : ∀ e ∈ data, e.1 ≠ dT.1) (hlineD : ∀ e ∈ text, e.1 ≠ dD.1) :
+    segment (dD :: (data ++ dT :: text)) = .ok (data, text) ∧
+    segment (dT :: (text ++ dD :: data)) = .ok (data, text) ∧
+    (text ≠ [] → segment (text ++ dD :: data) = .ok (data, text)) :=
+  ⟨segment_data_text dD dT hD hT data text hd ht hlineT,
+   segment_text_data dT dD hT hD text data ht hd hlineD,
+   fun hne => segment_implicit_text_data dD hD text data hne ht hd hlineD⟩
+
+/-- The degenerate orders: no directive at all — everything is text; `.data` only — no text;
+    `.text` only — no data. -/
+theorem segment_order_single (d : Entry) (l : List Entry) (hl : ∀ e ∈ l, isSegDir e = false) :
+    segment l = .ok ([], l) ∧
+    (isDir "data" d = true → segment (d :: l) = .ok (l, [])) ∧
+    (isDir "text" d = true → segment (d :: l) = .ok ([], l)) :=
+  ⟨segment_text_only l hl, fun h => segment_data_only d h l hl, fun h => segment_textdir_only d h l hl⟩
+
+/-- Conversely, a token list with distinct line numbers that `segment` accepts has one of these six
+    shapes (`SegShape`): anything else — a second `.data` or `.text` — is rejected. -/
+theorem segment_accepts_only (toks data text : List Entry) (hnd : (toks.map (·.1)).Nodup)
+    (h : segment toks = .ok (data, text)) : SegShape toks data text :=
+  segment_shape toks data text hnd h
+
+/-- **The segment order does not matter.** `processLabels` runs over the whole token list in text
+    order but skips directives and variable declarations, so labels are numbered by their position
+    among the instructions wherever the data segment stands: if the data lines are variable
+    declarations, the three orders give the *same* result of `loadToks` — the same state
+    (memory, `maxPc`, loaded instruction, …) and the same error, if any. -/
+theorem segment_order_same_image (t : TSim) (dD dT : Entry) (hD : isDir "data" dD = true)
+    (hT : isDir "text" dT = true) (data text : List Entry)
+    (hd : ∀ e ∈ data, isVarDecl e.2.2 = true) (ht : ∀ e ∈ text, isSegDir e = false)
+    (hlineT : ∀ e ∈ data, e.1 ≠ dT.1) (hlineD : ∀ e ∈ text, e.1 ≠ dD.1) :
+    loadToks t (dT :: (text ++ dD :: data)) = loadToks t (dD :: (data ++ dT :: text)) ∧
+    (text ≠ [] → loadToks t (text ++ dD :: data) = loadToks t (dD :: (data ++ dT :: text))) :=
+  loadToks_orders t dD dT hD hT data text hd ht hlineT hlineD
+
+/-- The same for the success case without assuming anything about the data lines: if the program in
+    the order `.data … .text …` loads, then the two other orders load to the very same state. -/
+theorem segment_order_same_image_of_ok (t : TSim) (dD dT : Entry) (hD : isDir "data" dD = true)
+    (hT : isDir "text" dT = true) (data text : List Entry)
+    (hd : ∀ e ∈ data, isSegDir e = false) (ht : ∀ e ∈ text, isSegDir e = false)
+    (hlineT : ∀ e ∈ data, e.1 ≠ dT.1) (hlineD : ∀ e ∈ text, e.1 ≠ dD.1)
+    (h : (loadToks t (dD :: (data ++ dT :: text))).2 = none) :
+    loadToks t (dT :: (text ++ dD :: data)) = loadToks t (dD :: (data ++ dT :: text)) ∧
+    (text ≠ [] → loadToks t (text ++ dD :: data) = loadToks t (dD :: (data ++ dT :: text))) :=
+  loadToks_orders t dD dT hD hT data text
+    (loadToks_ok_data_varDecl t _ data text (segment_data_text dD dT hD hT data text hd ht hlineT) h)
+    ht hlineT hlineD
+
+/-- **Numerals denote numbers.** For every `n` the decimal numeral of `n` and the `0x` numeral of
+    `n` (upper- or lower-case digits) are read by `_value_to_int` as `n`: decimal and hexadecimal
+    operands denote the same number. -/
+theorem numerals_denote (n : Nat) :
+    valueToInt (decNumeral n) = n ∧ valueToInt (hexNumeral n) = n ∧ valueToInt (hexNumeralLower n) = n :=
+  ⟨valueToInt_decNumeral n, valueToInt_hexNumeral n, valueToInt_hexNumeralLower n⟩
+
+/-- **Numerals are accepted.** A line `<mnemonic> <numeral>` — an address-type mnemonic in any
+    upper/lower-case spelling (`addrSpellings`: all 60 of them), one blank, then either a non-empty
+    string of at most 4300 decimal digits or `0x` followed by a non-empty string of hex digits of
+    any length — is tokenised as that instruction (canonical mnemonic `s`, no label) with the
+    numeral as its address operand. -/
+theorem numerals_accepted (m : List Char) (s : String) (hp : (m, s) ∈ addrSpellings)
+    (ds : List Char) (hne : ds ≠ []) :
+    ((∀ c ∈ ds, isNum c = true) → ds.length ≤ 4300 →
+      parseLine (m ++ ' ' :: ds) = some (.instr none s (some (String.ofList ds)) none)) ∧
+    ((∀ c ∈ ds, isHexNum c = true) →
+      parseLine (m ++ ' ' :: '0' :: 'x' :: ds) =
+        some (.instr none s (some ("0x" ++ String.ofList ds)) none)) :=
+  ⟨fun hnum hlen => parseLine_addr_dec m s hp ds hne hnum hlen,
+   fun hhex => parseLine_addr_hex m s hp ds hne hhex⟩
+
+/-- In particular the numerals of `n`: `ADD <decimal n>` (for `n < 10^4300`) and `ADD 0x<hex n>`
+    are both accepted, for every spelling of every address mnemonic, and — by `numerals_denote` —
+    produce instructions with the same address section `n mod 4096`. -/
+theorem numerals_of_n_accepted (m : List Char) (s : String) (hp : (m, s) ∈ addrSpellings) (n : Nat) :
+    (n < 10 ^ 4300 →
+      parseLine (m ++ ' ' :: (decNumeral n).toList) = some (.instr none s (some (decNumeral n)) none)) ∧
+    parseLine (m ++ ' ' :: (hexNumeral n).toList) = some (.instr none s (some (hexNumeral n)) none) ∧
+    parseLine (m ++ ' ' :: (hexNumeralLower n).toList) =
+      some (.instr none s (some (hexNumeralLower n)) none) ∧
+    ∀ (k : Nat) (line : String) (lbl : Option String) (ls : Labels),
+      buildInstrs [(k, line, .instr lbl s (some (decNumeral n)) none)] ls =
+        buildInstrs [(k, line, .instr lbl s (some (hexNumeral n)) none)] ls ∧
+      buildInstrs [(k, line, .instr lbl s (some (decNumeral n)) none)] ls =
+        buildInstrs [(k, line, .instr lbl s (some (hexNumeralLower n)) none)] ls := by
+  refine ⟨?_, ?_, ?_, ?_⟩
+  · intro hn
+    have := parseLine_addr_dec m s hp (digitStr Fmt.digitChar 10 n) (digitStr_ne_nil _ _ _)
+      (digitStr_isNum _ isDigitTable_upper n)
+      (digitStr_length_le _ 10 (by omega) n 4300 (by omega) hn)
+    simpa [decNumeral] using this
+  · have := parseLine_addr_hex m s hp (digitStr Fmt.digitChar 16 n) (digitStr_ne_nil _ _ _)
+      (digitStr_isHexNum _ isDigitTable_upper n)
+    simpa [hexNumeral] using this
+  · have := parseLine_addr_hex m s hp (digitStr lowerDigit 16 n) (digitStr_ne_nil _ _ _)
+      (digitStr_isHexNum _ isDigitTable_lower n)
+    simpa [hexNumeralLower] using this
+  · intro k line lbl ls
+    simp only [buildInstrs, valueToInt_decNumeral, valueToInt_hexNumeral, valueToInt_hexNumeralLower,
+      and_self]
+
+/-! ## Non-vacuity examples (a concrete 3-line program) -/
+
+/-- `prog3` loads (hypothesis of `instr_placement`, `data_placement_load`, `labels_resolve`), has
+    distinct line numbers, one instruction `LDA 4094 = 0x1FFE` at address 0, the array at
+    4094, 4095, and the label table `loop ↦ 0, x ↦ 4094`. -/
+example :
+    (loadToks {} prog3).2 = none ∧ (prog3.map (·.1)).Nodup ∧
+    instrsOf prog3 = [⟨1, 4094⟩] ∧
+    segData prog3 = [(3, "x: .word 7, 0x10", .varDecl "x" ["7", "0x10"])] ∧
+    allLabels prog3 = [("loop", 0), ("x", 4094)] ∧
+    (loadToks {} prog3).1.s.mem.cells 0 = 0x1FFE ∧
+    (loadToks {} prog3).1.s.mem.cells 4094 = 7 ∧ (loadToks {} prog3).1.s.mem.cells 4095 = 16 := by
+  decide
+
+/-- The data pass of `prog3` on its own (hypotheses of `data_placement`). -/
+example :
+    (writeData (segData prog3) (dataInit [("loop", 0)])).err = none ∧
+    (dataInit [("loop", 0)]).mem.cfg = Mem.toyCfg ∧ (dataInit [("loop", 0)]).last ≤ 4095 := by
+  decide
+
+/-- The hypotheses of `segment_order` / `segment_order_same_image` hold for the pieces of `prog3`,
+    and `prog3'` (data first) indeed loads to the same cells. -/
+example :
+    let dD : Entry := (2, ".data", .directive "data")
+    let dT : Entry := (4, ".text", .directive "text")
+    let data : List Entry := [(3, "x: .word 7, 0x10", .varDecl "x" ["7", "0x10"])]
+    let text : List Entry := [(1, "loop: LDA x", .instr (some "loop") "LDA" none (some "x"))]
+    isDir "data" dD = true ∧ isDir "text" dT = true ∧
+    (∀ e ∈ data, isVarDecl e.2.2 = true) ∧ (∀ e ∈ data, isSegDir e = false) ∧
+    (∀ e ∈ text, isSegDir e = false) ∧ (∀ e ∈ data, e.1 ≠ dT.1) ∧ (∀ e ∈ text, e.1 ≠ dD.1) ∧
+    text ≠ [] ∧ prog3 = text ++ dD :: data ∧ prog3' = dD :: (data ++ dT :: text) ∧
+    (loadToks {} prog3').2 = none ∧ (loadToks {} prog3').1.s.mem.cells 0 = 0x1FFE := by
+  decide
+
+/-- Hypotheses of `numerals_accepted`: `aDd` is a spelling of `ADD`; `4095`, `0xFFF`, `0xfff`. -/
+example :
+    ("aDd".toList, "ADD") ∈ addrSpellings ∧ addrSpellings.length = 60 ∧
+    decNumeral 4095 = "4095" ∧ hexNumeral 4095 = "0xFFF" ∧ hexNumeralLower 4095 = "0xfff" ∧
+    (∀ c ∈ "4095".toList, isNum c = true) ∧ (∀ c ∈ "fFf".toList, isHexNum c = true) := by
+  decide
+
+/-! ## Example programs (evaluated in the model; examples, not universal claims) -/
+
+/-- `countdown` is tokenised (by the real front end `tokenize ∘ sanitize`) into six instruction
+    lines, the `.data` directive and the declaration of `x`. -/
+theorem countdown_tokens :
+    tokenize (sanitize countdown) = .ok
+      [(1, "LDA x", .instr none "LDA" none (some "x")),
+       (2, "loop: DEC", .instr (some "loop") "DEC" none none),
+       (3, "BRZ end", .instr none "BRZ" none (some "end")),
+       (4, "ZRO", .instr none "ZRO" none none),
+       (5, "BRZ loop", .instr none "BRZ" none (some "loop")),
+       (6, "end: STO x", .instr (some "end") "STO" none (some "x")),
+       (7, ".data", .directive "data"),
+       (8, "x: .word 3", .varDecl "x" ["3"])] := by
+  rw [tokenize_of_tokenizes countdown (by decide +kernel)]
+  exact congrArg _ (by decide +kernel)
+
+/-- `countdown` assembles to `LDA 4095, DEC, BRZ 5, ZRO, BRZ 1, STO 4095` at addresses 0..5 with
+    `x = 3` at 4095, `loop ↦ 1`, `end ↦ 5`, `x ↦ 4095`.  (Executing it never reaches `end`: `ZRO`
+    clears the accumulator before the jump back, so after the first round `DEC` always produces
+    65535 — in the model the program is still running after 1000 steps, with `x` unchanged.) -/
+theorem countdown_image :
+    (load {} countdown).2 = none ∧
+    (List.range 6).map (fun (i : Nat) => (load {} countdown).1.s.mem.cells (i : Int)) =
+      [0x1FFF, 0xA000, 0x2005, 0xB000, 0x2001, 0x0FFF] ∧
+    (load {} countdown).1.s.mem.cells 4095 = 3 ∧
+    (load {} countdown).1.s.maxPc = some 5 ∧
+    isDone (run 1000 (load {} countdown).1) = false ∧
+    (run 1000 (load {} countdown).1).s.mem.cells 4095 = 3 := by
+  rw [(load_tokenised {} countdown).1, countdown_tokens]
+  decide +kernel
+
+/-- The text of the help-page example is tokenised (by the real front end) into `helpExample`,
+    and the text of `sum.toy` into `sumToy`; hence `load` on these texts is `loadToks` on these
+    token lists, and the two results below are results about the documented program *texts*. -/
+theorem documented_examples_tokens (t : TSim) :
+    tokenize (sanitize (textOfLines helpLines)) = .ok helpExample ∧
+    tokenize (sanitize (textOfLines sumLines)) = .ok sumToy ∧
+    load t (textOfLines helpLines) = loadToks t helpExample ∧
+    load t (textOfLines sumLines) = loadToks t sumToy := by
+  have h1 : tokenize (sanitize (textOfLines helpLines)) = .ok helpExample :=
+    tokenize_of_tokenizesTo _ _ (by decide +kernel)
+  have h2 : tokenize (sanitize (textOfLines sumLines)) = .ok sumToy :=
+    tokenize_of_tokenizesTo _ _ (by decide +kernel)
+  refine ⟨h1, h2, ?_, ?_⟩
+  · rw [(load_tokenised t _).1, h1]
+  · rw [(load_tokenised t _).1, h2]
+
+/-- The help-page example: the array is at 4093..4095 (`7, 15, 3`), `my_var` at 4092, `my_result`
+    at 4091; the labels are `true ↦ 5`, `end ↦ 7`; the run halts after 5 instructions with
+    `my_result = 1` (the first array element equals `my_var`). -/
+theorem help_example_result :
+    (loadToks {} helpExample).2 = none ∧
+    allLabels helpExample =
+      [("true", 5), ("end", 7), ("my_array", 4093), ("my_var", 4092), ("my_result", 4091)] ∧
+    (List.range 5).map (fun (i : Nat) => (loadToks {} helpExample).1.s.mem.cells (4091 + (i : Int))) =
+      [0, 7, 7, 15, 3] ∧
+    isDone (run 10 (loadToks {} helpExample).1) = true ∧
+    (run 10 (loadToks {} helpExample).1).s.instrs = 5 ∧
+    (run 10 (loadToks {} helpExample).1).s.mem.cells 4091 = 1 := by
+  decide +kernel
+
+/-- `sum.toy`: `n` is at 4095, `result` at 4094, `loop ↦ 2`, `end ↦ 11`; the run halts after 90
+    instructions with `result = 55 = 1 + … + 10` and `n = 0`. -/
+theorem sum_toy_result :
+    (loadToks {} sumToy).2 = none ∧
+    allLabels sumToy = [("loop", 2), ("end", 11), ("n", 4095), ("result", 4094)] ∧
+    isDone (run 100 (loadToks {} sumToy).1) = true ∧
+    (run 100 (loadToks {} sumToy).1).s.instrs = 90 ∧
+    (run 100 (loadToks {} sumToy).1).s.mem.cells 4094 = 55 ∧
+    (run 100 (loadToks {} sumToy).1).s.mem.cells 4095 = 0 := by
+  decide +kernel
 
 end ArchSim.Props.C19
